@@ -31,12 +31,32 @@ import (
 const (
 	c38Settle = 3 * time.Second
 	c38Window = 1 * time.Second // the debounce interval the watcher is designed around (harness's own copy)
-	// The watcher takes its baseline (the resolved path of the file) in its goroutine, i.e. some time
-	// after Initialize returned; the schedule starts when that has certainly happened.
-	c38StartupGrace = 250 * time.Millisecond
+	// pause between Initialize() and the first operation of schedules that do not ask for "noGrace"
+	c38StartupGrace = 100 * time.Millisecond
 	c38KnownKey     = "c38-events-in-debounce-window-dropped"
 	c38FileName     = "mediamtx.yml"
 )
+
+// The driver maps a log containing VERIF-INCONCLUSIVE to exit 2 even if another entry point reported a
+// confirmed violation, so inconclusive findings are collected here and only emitted (by the last entry
+// point, TestVerifC38ZInconclusive) when nothing was confirmed.
+var (
+	c38Mu           sync.Mutex
+	c38Confirmed    bool
+	c38Inconclusive []string
+)
+
+func c38SetConfirmed() {
+	c38Mu.Lock()
+	c38Confirmed = true
+	c38Mu.Unlock()
+}
+
+func c38AddInconclusive(msg string) {
+	c38Mu.Lock()
+	c38Inconclusive = append(c38Inconclusive, msg)
+	c38Mu.Unlock()
+}
 
 type c38Op struct {
 	kind  string        // rewrite | slowwrite | rename | remove | create | swap | retarget
@@ -188,6 +208,7 @@ func c38Play(s c38Schedule, spaced bool) (out c38Outcome) {
 	}
 
 	if !s.noGrace {
+		// let the watcher goroutine start; TestVerifC38RegressStartupChange covers the other case
 		time.Sleep(c38StartupGrace)
 	}
 
@@ -398,11 +419,15 @@ func TestVerifC38FinalContent(t *testing.T) {
 	// met while shrinking must not replace it (t.Skip = "not a failing case").
 	confirmed := false
 	var unconfirmed []string
+	infra := ""
 
 	rapid.Check(t, func(t *rapid.T) {
 		scheds := make([]c38Schedule, batch)
 		for i := range scheds {
 			scheds[i] = c38ScheduleGen(t, maxOps, spaced)
+			if !spaced && rapid.IntRange(0, 3).Draw(t, "nograce") == 3 {
+				scheds[i].noGrace = true
+			}
 		}
 		outs := make([]c38Outcome, batch)
 		var wg sync.WaitGroup
@@ -420,7 +445,8 @@ func TestVerifC38FinalContent(t *testing.T) {
 				if confirmed {
 					t.Skip("infrastructure error while shrinking")
 				}
-				t.Fatalf("VERIF-INCONCLUSIVE: %v (schedule %s)", o.infra, o.sched)
+				infra = fmt.Sprintf("%v (schedule %s)", o.infra, o.sched)
+				t.Fatalf("infrastructure error, see the end of the log: %s", infra)
 			}
 		}
 		if !confirmed {
@@ -440,9 +466,12 @@ func TestVerifC38FinalContent(t *testing.T) {
 			case err != nil && confirmed:
 				t.Skip("infrastructure error while shrinking")
 			case err != nil:
-				t.Fatalf("VERIF-INCONCLUSIVE: %v while re-playing %s", err, o.sched)
+				infra = fmt.Sprintf("%v while re-playing %s", err, o.sched)
+				t.Fatalf("infrastructure error, see the end of the log: %s", infra)
 			case repro == c38Replays:
 				confirmed = true
+				infra = ""
+				c38SetConfirmed()
 				t.Fatalf("the server was not notified after the last change and keeps stale content (reproduced in %d of %d re-plays)\n"+
 					"schedule: %s\n%s", repro, c38Replays, o.sched, o.timeline())
 			default:
@@ -457,18 +486,25 @@ func TestVerifC38FinalContent(t *testing.T) {
 		}
 	})
 
-	if !t.Failed() && len(unconfirmed) > 0 {
-		t.Fatalf("VERIF-INCONCLUSIVE: %d schedule(s) lost the final content but did not do so in all %d re-plays:\n%s",
-			len(unconfirmed), c38Replays, strings.Join(unconfirmed, "\n"))
+	if !confirmed {
+		if infra != "" {
+			c38AddInconclusive(infra)
+		}
+		if len(unconfirmed) > 0 {
+			c38AddInconclusive(fmt.Sprintf("%d schedule(s) lost the final content but did not do so in all %d re-plays:\n%s",
+				len(unconfirmed), c38Replays, strings.Join(unconfirmed, "\n")))
+		}
 	}
 }
 
-// TestVerifC38StartupChange: a change made immediately after Initialize() returned must be signalled as
-// well ("for any timing"). Whether the window is hit depends on goroutine scheduling, so the same
-// one-operation schedule is played many times concurrently; following the rule above, three misses are a
-// violation, one or two are inconclusive.
-func TestVerifC38StartupChange(t *testing.T) {
-	rec := kit.R("TestVerifC38StartupChange")
+// TestVerifC38RegressStartupChange: a change made immediately after Initialize() returned must be
+// signalled as well ("for any timing"). Before fix e04c6fa the watcher resolved its baseline path inside
+// its goroutine, so a symlink swap done right after Initialize() was absorbed into the baseline and never
+// signalled (23 of 24 runs on a loaded machine). Whether the window is hit depends on goroutine
+// scheduling, so the same one-operation schedule is played many times concurrently; following the rule
+// above, three misses are a violation, one or two are inconclusive.
+func TestVerifC38RegressStartupChange(t *testing.T) {
+	rec := kit.R("TestVerifC38RegressStartupChange")
 	t.Cleanup(kit.Flush)
 	trials := kit.EnvInt("C38_STARTUP_TRIALS", 24)
 
@@ -489,7 +525,8 @@ func TestVerifC38StartupChange(t *testing.T) {
 		var missed []c38Outcome
 		for i, o := range outs {
 			if o.infra != nil {
-				t.Fatalf("VERIF-INCONCLUSIVE: %v (schedule %s)", o.infra, s)
+				c38AddInconclusive(fmt.Sprintf("%v (schedule %s)", o.infra, s))
+				t.Fatalf("infrastructure error: %v (schedule %s)", o.infra, s)
 			}
 			rec.Case(true, fmt.Sprintf("%s #%d", s, i), c38Classes(o)...)
 			if o.miss {
@@ -498,17 +535,20 @@ func TestVerifC38StartupChange(t *testing.T) {
 		}
 		switch {
 		case len(missed) >= c38Replays:
+			c38SetConfirmed()
 			t.Fatalf("a change made right after Initialize() was never signalled in %d of %d runs\nschedule: %s\n%s",
 				len(missed), trials, s, missed[0].timeline())
 		case len(missed) > 0:
-			t.Fatalf("VERIF-INCONCLUSIVE: a change made right after Initialize() was not signalled in %d of %d runs (fewer than %d)\nschedule: %s\n%s",
-				len(missed), trials, c38Replays, s, missed[0].timeline())
+			c38AddInconclusive(fmt.Sprintf("a change made right after Initialize() was not signalled in %d of %d runs (fewer than %d)\nschedule: %s\n%s",
+				len(missed), trials, c38Replays, s, missed[0].timeline()))
 		}
 	}
 }
 
-// Regression: the minimal schedules that lose the final content. Two writes 300 ms apart: the first one
-// is signalled, the event of the second one arrives inside minInterval and is dropped for good.
+// Regression for finding c38-events-in-debounce-window-dropped (fixed by e04c6fa): the minimal schedules
+// that lost the final content. Two writes 300 ms apart: the first one is signalled, the event of the
+// second one arrived inside minInterval and was dropped for good; a write seen as truncate + write was read
+// empty and its second event dropped.
 func TestVerifC38RegressSecondWriteDropped(t *testing.T) {
 	for _, s := range []c38Schedule{
 		{layout: "plain", ops: []c38Op{{kind: "rewrite"}, {kind: "rewrite", gap: 300 * time.Millisecond}}},
@@ -517,10 +557,23 @@ func TestVerifC38RegressSecondWriteDropped(t *testing.T) {
 	} {
 		o := c38Play(s, false)
 		if o.infra != nil {
-			t.Fatalf("VERIF-INCONCLUSIVE: %v", o.infra)
+			c38AddInconclusive(fmt.Sprintf("%v (schedule %s)", o.infra, s))
+			t.Fatalf("infrastructure error: %v", o.infra)
 		}
 		if o.miss {
+			c38SetConfirmed()
 			t.Errorf("final content lost: %s\n%s", s, o.timeline())
 		}
 	}
+}
+
+// TestVerifC38ZInconclusive runs last (source order) and turns what the other entry points could not
+// decide into the driver's "inconclusive" marker, unless one of them confirmed a violation.
+func TestVerifC38ZInconclusive(t *testing.T) {
+	c38Mu.Lock()
+	defer c38Mu.Unlock()
+	if c38Confirmed || len(c38Inconclusive) == 0 {
+		return
+	}
+	t.Fatalf("VERIF-INCONCLUSIVE: %s", strings.Join(c38Inconclusive, "\n"))
 }
